@@ -385,6 +385,13 @@ static void lsqTwoPinCase(Rng &rng, CaseResult &r) {
   if (r.dumpOnly) return;
   NetModel nm = build(m, 1.0f);
   std::vector<float> sol = withPenalty ? nm.solveWithPenalty(pl, target, strength, P) : nm.solve(pl, P);
+  // the model-specific entry points compute the same thing as the dispatching ones, bit for bit
+  if (P.netModel == NetModelOption::Star || P.netModel == NetModelOption::BoundToBound) {
+    bool star = P.netModel == NetModelOption::Star;
+    std::vector<float> direct = withPenalty ? (star ? nm.solveStar(pl, target, strength, P) : nm.solveB2B(pl, target, strength, P)) : (star ? nm.solveStar(pl, P) : nm.solveB2B(pl, P));
+    if (!bitEqual(sol, direct)) r.fail("C17:model-specific-entry-point-differs", std::string(star ? "solveStar" : "solveB2B") + (withPenalty ? " with penalty" : "") + " differs from " + (withPenalty ? "solveWithPenalty" : "solve") + " with the same net model");
+    r.count("entry_point_pairs_compared");
+  }
   Dense D(m.nc);
   bool fractional = false, tie = false;
   for (auto &t : m.nets) {
